@@ -211,6 +211,28 @@ PROPS["C34"] = {
     "level_note": "Kernel-level claim for every state pair; the GC-history state machine is outside.",
 }
 
+PROPS["C08"] = {
+    "enc": ["vo_bit::is_vo_bit_set_for_addr", "is_vo_bit_set_inner", "get_object_ref_for_vo_addr", "vo_bit::find_object_from_internal_pointer", "is_internal_ptr_from_vo_bit", "is_internal_ptr", "is_vo_addr",
+            "SideMetadataSpec::{is_mapped, load_atomic, find_prev_non_zero_value (+_fast, +_simple)}", "ObjectReference::to_object_start"],
+    "sym": "a 3-byte VO bitmap (24 words = 192 heap bytes) holding one or two non-overlapping objects with symbolic start word and size (2..=24 words), mapped/unmapped; query: any word-aligned address (is_object) / any byte address and any search limit that stays inside the window (internal pointer)",
+    "bound": "192 bytes of heap, <= 2 objects, VmA (object reference == object start); unwind 26 (+ per-loop bound 5 on the byte loop) with unwinding assertions; feature vo_bit.",
+    "outside": "the space-level dispatch (SFT_MAP.get_checked(addr).is_mmtk_object / find_object_from_internal_pointer on each space) and the LargeObjectSpace page-wise variant need live spaces; heaps larger than the window; the word-at-a-time path of the underlying search (see C22); VMs whose object reference is offset from the object start",
+    "assumptions": COMMON_ASSUME + ["E1 base hook, E2 window loads (internal-pointer harness), E3 mapped predicate: heap range and VO table both mapped or both unmapped", "the VO bitmap is consistent with the object table: a bit is set exactly at each object's reference", "objects do not overlap, are word aligned and at least two words"],
+    "level_text": "Bounded symbolic execution (Kani/CBMC) of the real VO-bit lookup kernels on a 192-byte heap window with one or two symbolic objects: a word-aligned address is reported as an object iff it is an object reference; an interior pointer resolves to the object that contains it iff that object's reference is within the search limit, and to nothing otherwise; unmapped addresses yield None without touching memory.",
+    "level_note": "Kernel-level claim (VO-bit lookups); the per-space dispatch is outside.",
+}
+
+PROPS["C27"] = {
+    "enc": ["RawMemoryFreeList::new", "grow_freelist", "grow_list_by_blocks", "raise_high_water", "current_capacity", "units_per_block", "size_in_pages", "mmap",
+            "FreeList::{alloc, __alloc, __split, set_sentinel, set_size, add_to_free, get/set_next/prev/free}", "RawMemoryFreeList::alloc"],
+    "sym": "pages_per_block in {1, 2} and every table access value; unit count, grain (whole list / half) and growth schedule (one step / two steps) are concrete per harness: 10 unit counts around the page boundaries (6, 510, 511, 512, 600, 1022, 1023, 1024, 1100, 1534) x up to 3 schedules = 26 harnesses",
+    "bound": "Tables of <= 3 pages, heads = 1; limit = base + pages(size_in_pages) as Map64::create_parent_freelist computes it; unwind 6.  Unit count and grain had to be concrete: with symbolic values every index into the 3072-entry table is symbolic and the query exhausts 16 GB (and 44 GB).",
+    "outside": "other unit counts, heads > 1, more than two growth steps, tables above 3 pages",
+    "assumptions": COMMON_ASSUME + ["E5: OS::dzmmap stubbed to record (start, bytes) and succeed", "E2: RawMemoryFreeList::{get_entry, set_entry} (the only table accesses) redirected to a typed static array with a bound check against the bytes mapped so far; natively the real slice over the real buffer is used"],
+    "level_text": "Bounded symbolic execution (Kani/CBMC) of the real RawMemoryFreeList growth path for 26 (unit count, grain, schedule) configurations around the page boundaries with symbolic block size: growth up to the configured maximum succeeds, beyond it is refused, every mapping is inside [base, limit) and contiguous, table accesses stay inside the mapped table, and every grown grain can be allocated exactly once.",
+    "level_note": "Configuration-list bound (see outside-the-claim): weaker than the other claims, stated as such; found F3 and F3b.",
+}
+
 NOT_APPLICABLE = {}
 _L = ("observable only on a live collector (MMTK instance, mmap'd heap, OS worker threads, VM call-backs); Kani has no thread/FFI model and a "
       "whole collection is outside any unwinding bound; the bit-level kernels are decided under ")
@@ -236,9 +258,7 @@ NOT_APPLICABLE.update({
 })
 # Planned in DESIGN.md section 3 but not claimed (reasons measured or stated in DESIGN.md section 8.6).
 NOT_APPLICABLE.update({
-    "C08": "kernel not built: find_object_from_internal_pointer / is_vo_bit_set_for_addr reduce to SideMetadataSpec::find_prev_non_zero_value, whose encoding only finishes on a 3-byte bitmap (C22: ~6 min per query); the object-size dimension on top of it did not fit the budget, and the space-level dispatch (SFT_MAP.get_checked(addr).is_mmtk_object, LOS page-wise variant) needs live spaces",
     "C10": "the retry-loop kernel (Allocator::alloc_slow_inline) needs an AllocatorContext with Arc<Options> and Arc<GCTrigger>; Options::default() goes through env-var/String parsing (DESIGN P11: does not encode) and GCTrigger::new needs a boxed policy from Options; Space::acquire/poll need a space with a page resource",
-    "C27": "measured: RawMemoryFreeList addresses its table through a slice built with from_raw_parts_mut over an integer-derived pointer (base Address -> *mut i32); with the real 4 KiB page size the smallest table is 1024 entries and the case that matters (table size not a multiple of the block size) needs 3 pages; even the 6-unit harness exhausted 16 GB and then 44 GB in CBMC's propositional reduction (harness kept as work-in-progress, not claimed). The shared FreeList alloc/free logic is decided under C26 on IntArrayFreeList. Observed by reading, not decided by any check: raise_high_water computes `self.high_water - self.limit` (operands reversed) when the last block would cross the limit",
     "C28": "page resources need CommonPageResource + a VMMap and (FreeListPageResource) a RawMemoryFreeList table: the free-list table alone exhausts 16 GB per query unless every size is concrete (C26/C27), and MonotonePageResource::alloc_pages goes through the global MMAPPER/VM_MAP singletons and Mutex-protected state; BlockPageResource sits on BlockPool (DESIGN P17: 22 GB)",
     "C29": "Map32 keeps two Vec<i32> link tables, a descriptor Vec and two IntArrayFreeLists behind a Mutex and calls the global SFT_MAP (InitializeOnce<Box<dyn SFTMap>>, AtomicU128 entries: inline asm not executable by Kani) on every free; the free-list component alone is at the memory limit for 6 units / 3 operations (C26), so histories over the composed structure are out of reach",
     "C37": "DESIGN P19: the two-block / two-object formulation of ForwardingMetadata did not finish in 14 min at 5 GB (the bit-scan loop is unrolled to the global bound at every call site); the planned split formulation was not built in the available time",
